@@ -1,9 +1,12 @@
 ----------------------------- MODULE MC_Bytecode -----------------------------
 (***************************************************************************)
 (* C13 / C14 / C15 on the design: every byte string of up to MaxLen        *)
-(* symbols over byte classes (Push, every effectful opcode, plain opcodes, *)
-(* 0x00, 0xFF, an unassigned byte inside the assigned range), i.e. with    *)
-(* immediates drawn from every class and every truncation point.           *)
+(* symbols; a symbol is one byte of a byte class (Push, every effectful    *)
+(* opcode, plain opcodes, 0x00, 0xFF, an unassigned byte inside the        *)
+(* assigned range) or a COMPLETE Push whose 8 immediate bytes all equal a  *)
+(* byte of PushImms (so immediates that look like effectful opcodes, like  *)
+(* Push itself and like invalid opcodes occur in well-formed programs, and *)
+(* every truncation point of a Push occurs through the single bytes).      *)
 (*   RoundTrip / Unambiguous   parse o serialise = id on ops; a successful *)
 (*                             parse serialises back to exactly the bytes  *)
 (*   ErrorClasses              invalid opcode vs truncated immediate       *)
@@ -16,17 +19,19 @@
 (***************************************************************************)
 EXTENDS Integers, Sequences, FiniteSets, TLC, OpTablePinned, OpTableGen
 
-CONSTANT MaxLen
+CONSTANTS MaxLen, PushImms
 ASSUME TableDidNotDrift == GenTable = PinnedTable
 Table == GenTable
 INSTANCE Bytecode
 
 Classes == {1, 2, 48, 49, 128, 129, 130, 131, 0, 255, 15}
-VARIABLE bytes
-\* strings grow one byte at a time so that TLC's workers share the enumeration
-Init == bytes = <<>>
-Next == Len(bytes) < MaxLen /\ \E c \in Classes : bytes' = Append(bytes, c)
-Spec == Init /\ [][Next]_bytes
+VARIABLES bytes, syms
+\* strings grow one symbol at a time so that TLC's workers share the enumeration
+Init == bytes = <<>> /\ syms = 0
+Next == /\ syms < MaxLen /\ syms' = syms + 1
+        /\ \/ \E c \in Classes : bytes' = Append(bytes, c)
+           \/ \E c \in PushImms : bytes' = bytes \o <<1>> \o [i \in 1..8 |-> c]
+Spec == Init /\ [][Next]_<<bytes, syms>>
 
 P == Parse(bytes)
 
